@@ -80,7 +80,7 @@ def _main(a, seed, t_start):
     tier = a.tier if a.tier in ('quick', 'thorough') else 'quick'
     reg, mod = load_registry(prop)
     ev = specs.compile_specfuns(reg)
-    obls = specs.prefix_lemma_obligations(reg, prop) + specs.lemma_obligations(reg, ev, prop)
+    obls = specs.prefix_lemma_obligations(reg, prop) + specs.concat_lemma_obligations(reg, prop) + specs.lemma_obligations(reg, ev, prop)
     functions, undecided_fns = [], []
     per_fn = {}
     axioms = []
@@ -319,6 +319,9 @@ def _main(a, seed, t_start):
         for v in vac_problems:
             print('  vacuity: %s' % v)
     if a.verbose:
+        for o in obls:
+            if results[o.name]['time'] > 2:
+                print('  slow: %s %.1fs %s' % (o.name, results[o.name]['time'], results[o.name]['tried']))
         for o in refuted:
             print('  refuted: %s  %s' % (o.name, o.text[:100]))
     for name, path, found in violations:
